@@ -171,7 +171,26 @@ def check_C02(ctx):
                              "contents: pseudo-random, zeros, repetitive text; sizes are boundary-chosen"])
 
 
-CHECKS = {"C01": check_C01, "C02": check_C02, "C03": check_C03, "C04": check_C04, "C05": check_C05, "C07": check_C07}
+def check_C13(ctx):
+    b = ctx.bin(".")
+    jobs = []
+    cfgs = [("none", "0")]
+    for a in ("htpasswd", "mtls"):
+        for u in ("0", "1"):
+            cfgs.append((a, u))
+    for a, u in cfgs:
+        for m in ("0", "1"):
+            for asset in (("1", "0") if (ctx.thorough() or (a, u, m) == ("htpasswd", "0", "0")) else ("1",)):
+                jobs.append(Job(b, "TestVfC13", name="C13:%s/unauth%s/metrics%s/asset%s" % (a, u, m, asset), timeout=300,
+                                env={"VERIF_PARAM_AUTH": a, "VERIF_PARAM_UNAUTHREADS": u, "VERIF_PARAM_METRICS": m, "VERIF_PARAM_ASSET": asset}))
+    return dict(level="exploration", jobs=jobs,
+                rule="full product {no auth, htpasswd, mTLS} x allow_unauthenticated_reads x endpoint metrics x 7 HTTP methods x 6 endpoints x every gRPC method of every protobuf service linked into the binary that the server has registered x credential state; against the real run() of package main on unix sockets; non-trivial = distinct (config, method, endpoint, credential) cells where authentication was enabled and the expected decision was observed",
+                assumptions=["one server process per configuration, started through main's run() with command-line flags; certificates generated with crypto/x509; htpasswd entry {SHA}",
+                             "gRPC requests are empty messages: a method counts as registered when a fully authorised client does not get Unimplemented",
+                             "a method unknown to the harness's read-only list is treated as mutating"])
+
+
+CHECKS = {"C01": check_C01, "C02": check_C02, "C13": check_C13, "C03": check_C03, "C04": check_C04, "C05": check_C05, "C07": check_C07}
 
 # per-property manifest metadata
 META = {
@@ -187,6 +206,12 @@ META = {
         note="Finite grid; chunk-boundary arithmetic is exercised exhaustively on small-chunk files and at boundary offsets on 1 MiB-chunk files.",
         technique="exhaustive enumeration of a finite input/configuration grid through the real entry points against a byte-exact oracle",
         design_ref="DESIGN.md 2.5, 3 (C02)"),
+    "C13": dict(
+        category="exploration", engine="E4 grid",
+        text="Exhaustive finite access matrix against the real start-up code: main's run() is started with flags for each of {no auth, htpasswd, mTLS} x allow_unauthenticated_reads x enable_endpoint_metrics (x remote asset API), on unix sockets; every HTTP method x endpoint (/cas, /ac, instance-prefixed /ac, /status, /metrics, /) and every registered gRPC method (discovered from all linked protobuf service descriptors) is called with every credential state (none, malformed, not-basic, unknown user, wrong/empty password, via authorization and via :authority; no / unverified / valid client certificate). Oracle written from the property: mutating or unknown => refused without valid credentials always; read-only => refused unless allow_unauthenticated_reads; valid => never refused; health Check always open; cache content unchanged.",
+        note="The matrix is finite and enumerated completely; requests carry empty/invalid payloads, so acceptance is observed as 'not 401/Unauthenticated'. LDAP is not exercised (needs a directory server).",
+        technique="exhaustive enumeration of the finite configuration x method x credential space against the running server",
+        design_ref="DESIGN.md 3 (C13)"),
     "C03": dict(
         category="model_checking", engine="E2 seqx + E1 vsched",
         text="Explicit-state search: BFS over all operation sequences (depth 4 quick / 6 thorough at LRU level over add/get/reserve/unreserve/remove/remover-step with block-edge sizes; depth 3 / 4 at cache level over good and failing uploads, lookups, overwrites and backend fetches) with every transition executed on the real code, the accounting equation, reserved==0 and Stats()==index checked in every state; plus every <=2/3-preemption schedule of three concurrent scenarios with the equation checked at every scheduling point.",
